@@ -21,6 +21,9 @@ from ..schema.scalars import MAX_INT, MIN_INT, SPECIFIED_SCALAR_TYPES
 
 
 _INT_RE = re.compile(r"^-?(0|[1-9][0-9]*)$")
+_FLOAT_RE = re.compile(
+    r"^-?(0|[1-9][0-9]*)(\.[0-9]+([eE][+-]?[0-9]+)?|[eE][+-]?[0-9]+)\Z"
+)
 
 
 def ast_node_from_value(value: Any, input_type: GraphQLType) -> _ast.Value:
@@ -147,12 +150,10 @@ def _scalar_node_from_value(
                     return _ast.IntValue(value=scalar_value)
                 else:
                     return _ast.FloatValue(value=scalar_value)
-            try:
-                fl = float(scalar_value)
-            except ValueError:
-                pass
-            else:
-                return _ast.FloatValue(value=str(fl))
+            # Only text which already is a GraphQL float literal is spelled
+            # as one, verbatim, so that it reads back as the same string.
+            if _FLOAT_RE.match(scalar_value):
+                return _ast.FloatValue(value=scalar_value)
 
         return _ast.StringValue(value=scalar_value)
 
